@@ -41,6 +41,7 @@ type Harness struct {
 	BigW     int               `json:"bigw"`
 	LazyBig  bool              `json:"lazy_big_bytes,omitempty"`
 	AbsHex   bool              `json:"abs_hex,omitempty"`
+	ScaleConsts map[string]map[string]int64 `json:"scale_consts,omitempty"`
 	MaxSteps int64             `json:"max_steps,omitempty"`
 	Unwind   int               `json:"unwind"`
 	Cuts     []string          `json:"cuts"`
@@ -164,7 +165,7 @@ func (h *Harness) config() symex.Config {
 	for _, c := range h.Cuts {
 		cuts[c] = true
 	}
-	return symex.Config{Mode: h.Mode, BigW: h.BigW, Unwind: h.Unwind, Cuts: cuts, Redirect: h.Redirect, LazyBigBytes: h.LazyBig, MaxSteps: h.MaxSteps, AbsHex: h.AbsHex}
+	return symex.Config{Mode: h.Mode, BigW: h.BigW, Unwind: h.Unwind, Cuts: cuts, Redirect: h.Redirect, LazyBigBytes: h.LazyBig, MaxSteps: h.MaxSteps, AbsHex: h.AbsHex, ScaleConsts: h.ScaleConsts}
 }
 
 func main() {
